@@ -369,12 +369,12 @@ func (g *seqGen) next() *Op {
 				} else {
 					op.N = "a"
 				}
-				// open finding (DESIGN.md section 7, D11/D12): a directory renamed into a
-				// different directory keeps a stale '..' and may be moved into its own
-				// subtree. The generator avoids exactly that trigger; everything else
-				// about RENAME stays in play.
+				// open finding (DESIGN.md section 7, D12): a directory can be renamed
+				// into its own subtree (the ancestor check needs a rename-wide lock the
+				// server does not have). The generator avoids exactly that trigger;
+				// everything else about RENAME stays in play.
 				if fd != nil && td != nil && op.H2 != op.H {
-					if id, ok := fd.Kids[op.N]; ok && g.m.Objs[id].Kind == kDIR {
+					if id, ok := fd.Kids[op.N]; ok && g.m.Objs[id].Kind == kDIR && g.m.isAncestor(id, td.ID) {
 						op.H2 = op.H
 						td = fd
 					}
